@@ -62,8 +62,31 @@
     related to the reference state `s`): `found = Token t` ⇒ `t` is the first
     token of `K` starting at or after `c`, `ts` exactly its span;
     `found = EndOfText` ⇒ no token of `K` starts at or after `c`.
+  * `C13_boundary_extent` (and `_fresh`, `_captured`) — "boundary errors quote the
+    actual extents".  `up_to(item, abort)` is what `list` wraps around every item;
+    it raises `Boundary { es, end }` when the item succeeds but is not followed by
+    an abort (separator / closing) token.  Setting as in C14 (`ScanOK`, `PassOK`, a
+    lexer related by `AbsC` to a state `s` of the reference evaluator; `item` in
+    the C14 fragment `pegWithCap`).  If the reference evaluator accepts `item` on a
+    prefix of the kept tokens ending with the token `q`
+    (`s.view = vpre ++ q :: s1.view`), and the next kept token `r` exists and is not
+    an abort token, then the model of `up_to(item, abort)` — unless it runs out of
+    fuel — fails with a boundary error whose parsed extent `es` ENDS at `q.stop`
+    (the full position: byte, line, column): at the end of the last token the item
+    accepted, not before it and not after the first token the item left.  This is
+    the model-side theorem behind the driver's clause `boundaryProblems`
+    (`TephraModel/Fam/Oracles.lean`), which compares `es.e.byte` of the Rust error
+    with `q.stop.byte` computed by `Spec.peg`.  On the way
+    (`BoundaryExtent.peg_after`): on grammars that do not change the filter, the raw
+    tokens the reference evaluator consumes always end with a kept token.
+    `C13_boundary_extent_captured`: the same end, named through C14 — `es` ends
+    where the span `spanned(item)` captures ends.  Unbounded in scanner, text,
+    metrics, item, abort set, fuel.  (The START of `es` is the lexer's parse start,
+    which the relation `AbsC` does not track through `run`; nothing is claimed of
+    it beyond start ≤ end.)
 -/
 import TephraModel.Run
+import TephraProofs.BoundaryExtent
 import TephraProofs.RunSpans
 import TephraProofs.LeafUnexpected
 import TephraProofs.ErrorOrigin
@@ -387,5 +410,118 @@ example : ∃ e ∈ (run RW 4 gSink (Lexer.new 0 mW 3) ⟨true, [], false⟩ Wor
   rw [gSink_logs] at hnew
   refine ⟨_, by rw [gSink_logs]; exact List.mem_singleton.mpr rfl, h2 _ (by rw [hnew]; exact List.mem_singleton.mpr rfl),
     _, _, _, _, rfl⟩
+
+/-! ### boundary errors quote the actual extents -/
+
+open BoundaryExtent in
+/-- **Boundary errors quote the actual extents: the parsed extent ends at the end of the last
+token the item accepted.**
+
+`up_to(a, abort)` is the wrapper `list` puts around every item.  Let the lexer `lx` be related
+(`AbsC`, as in C14) to the state `s` of the reference evaluator, `a` a grammar of the C14
+fragment.  Suppose the reference evaluator accepts `a` from `s` leaving `s1`
+(`hpeg`, any fuel `k ≥ 2 n`), the item consumed the kept tokens `vpre ++ [q]` — `q` is the last
+token it accepted (`hview`) — and it left a kept token `r` that is not an abort token
+(`hnext`, `hab`): the item accepted a proper prefix of what precedes the next abort token.
+Then the model of `up_to(a, abort)`, whenever it does not run out of fuel, fails with
+`Boundary { es, end }` where `es.e = q.stop`: the quoted extent ends exactly where the accepted
+prefix ends — not before `q`'s end and not after the first token the item left (`r` starts at or
+after `q.stop`).  Also `es.s ≤ es.e`. -/
+theorem C13_boundary_extent (R : RunEnv) (m : Metrics) (len : Nat) (P : Pos → Prop)
+    (ok : ScanOK R.E m len) (hp : PassOK R.E) (hc : Closed R.E P m)
+    (hP : ∀ p, P p → (splitAtByte R.text p.byte).isSome = true)
+    (n k : Nat) (hk : 2 * n ≤ k) (a : G) (abort : List Nat) (lx : Lx) (s s1 : PState) (ctx : Ctx) (W : World)
+    (v : Val) (hg : pegWithCap a = true) (a0 : AbsC R.E m len P lx s)
+    (hpeg : peg R.text k a s = .ok v s1)
+    (vpre vpost : List (RawTok Tok)) (q r : RawTok Tok)
+    (hview : s.view = vpre ++ q :: s1.view) (hnext : s1.view = r :: vpost)
+    (hab : abort.contains r.tok.kind = false)
+    (hnf : (run R (n + 1) (.upTo a abort) lx ctx W).1 ≠ .fuel) :
+    ∃ es endp, (run R (n + 1) (.upTo a abort) lx ctx W).1 = .err (mkErr (.boundary es endp)) ∧
+      es.e = q.stop ∧ es.s.byte ≤ es.e.byte :=
+  upTo_boundary_extent hc ok hp hP hk hg a0 hpeg hview hnext hab hnf
+
+open BoundaryExtent in
+/-- The same for the harness's initial lexer (a fresh lexer after `with_filter(f)`), against the
+whole raw stream of the text. -/
+theorem C13_boundary_extent_fresh (R : RunEnv) (m : Metrics) (len : Nat) (P : Pos → Prop)
+    (ok : ScanOK R.E m len) (hp : PassOK R.E) (hc : Closed R.E P m) (h0 : P Pos.zero)
+    (hP : ∀ p, P p → (splitAtByte R.text p.byte).isSome = true)
+    (s0 : Nat) (f : Option Nat)
+    (n k : Nat) (hk : 2 * n ≤ k) (a : G) (abort : List Nat) (s1 : PState) (ctx : Ctx) (W : World)
+    (v : Val) (hg : pegWithCap a = true)
+    (hpeg : peg R.text k a (stateOf len (rawAt R.E m len s0 Pos.zero) Pos.zero f) = .ok v s1)
+    (vpre vpost : List (RawTok Tok)) (q r : RawTok Tok)
+    (hview : (stateOf len (rawAt R.E m len s0 Pos.zero) Pos.zero f).view = vpre ++ q :: s1.view)
+    (hnext : s1.view = r :: vpost) (hab : abort.contains r.tok.kind = false)
+    (hnf : (run R (n + 1) (.upTo a abort) ((Lexer.new s0 m len).withFilter R.E f) ctx W).1 ≠ .fuel) :
+    ∃ es endp, (run R (n + 1) (.upTo a abort) ((Lexer.new s0 m len).withFilter R.E f) ctx W).1 =
+        .err (mkErr (.boundary es endp)) ∧ es.e = q.stop ∧ es.s.byte ≤ es.e.byte :=
+  upTo_boundary_extent hc ok hp hP hk hg (absC_withFilter hc ok hp h0 s0 f) hpeg hview hnext hab hnf
+
+open BoundaryExtent in
+/-- The same end, named through C14: the parsed extent of the boundary error ends where the span
+that `spanned(a)` captures ends (`Spec.capturedSpan` of the raw tokens the item consumed). -/
+theorem C13_boundary_extent_captured (R : RunEnv) (m : Metrics) (len : Nat) (P : Pos → Prop)
+    (ok : ScanOK R.E m len) (hp : PassOK R.E) (hc : Closed R.E P m)
+    (hP : ∀ p, P p → (splitAtByte R.text p.byte).isSome = true)
+    (n k : Nat) (hk : 2 * n ≤ k) (a : G) (abort : List Nat) (lx : Lx) (s s1 : PState) (ctx : Ctx) (W : World)
+    (v : Val) (hg : pegWithCap a = true) (a0 : AbsC R.E m len P lx s)
+    (hpeg : peg R.text k a s = .ok v s1)
+    (sp : Span) (hcap : capturedSpan s.filter (s.rest.take (s.rest.length - s1.rest.length)) = some sp)
+    (vpost : List (RawTok Tok)) (r : RawTok Tok) (hnext : s1.view = r :: vpost)
+    (hab : abort.contains r.tok.kind = false)
+    (hnf : (run R (n + 1) (.upTo a abort) lx ctx W).1 ≠ .fuel) :
+    ∃ es endp, (run R (n + 1) (.upTo a abort) lx ctx W).1 = .err (mkErr (.boundary es endp)) ∧
+      es.e = sp.e :=
+  upTo_boundary_captured hc ok hp hP hk hg a0 hpeg hcap hnext hab hnf
+
+/-- On grammars of the C14 fragment the reference evaluator's consumed raw prefix ends with a kept
+token (or is empty): the end state's raw tokens are the start state's after a kept token. -/
+theorem C13_consumed_ends_kept (text : Text) (k : Nat) (g : G) (s s1 : PState) (v : Val)
+    (hg : pegWithCap g = true) (h : peg text k g s = .ok v s1) :
+    s1.filter = s.filter ∧
+      (s1.rest = s.rest ∨ ∃ pre q, s.rest = pre ++ q :: s1.rest ∧ keeps s.filter q.tok = true) :=
+  BoundaryExtent.peg_after hg h
+
+set_option maxRecDepth 8000 in
+/-- the model of `up_to(one 0, [2])` on `a b` (whitespace filtered): the item takes `a`, the next
+kept token `b` (kind 1) is not an abort token; the boundary error quotes `[0,1)` = the token `a`,
+and the rest of the segment is skipped to byte 3 -/
+theorem upTo_one_boundary :
+    (run RW 2 (.upTo (.one 0) [2]) lxW ctxW World.init).1 =
+      .err (mkErr (.boundary ⟨⟨0, 0, 0⟩, ⟨1, 0, 1⟩⟩ ⟨3, 0, 3⟩)) := by
+  simp [run, lxW, ctxW, RW, EW, scanW, mW, Lexer.withFilter, Lexer.setFilter, Lexer.new,
+    Lexer.bufferNext, Lexer.bufferLoop, Lexer.next, Lexer.peek, Lexer.filtered,
+    Lexer.parseSpan, Span.enclosing, passesMask, classOf, Pos.zero, Lexer.advanceTo, mkErr]
+
+theorem upTo_one_not_fuel : (run RW 2 (.upTo (.one 0) [2]) lxW ctxW World.init).1 ≠ .fuel := by
+  rw [upTo_one_boundary]; exact fun h => nomatch h
+
+/-- Non-vacuity of `C13_boundary_extent`: on `a b` with the whitespace filter, item `one 0`, abort
+set `[2]`, every hypothesis holds — scanner contract, filter table, closed position predicate
+(char boundaries of the text), related lexer, fragment, the reference evaluator accepts `a`
+(`q` = the token `a` at [0,1)) and leaves `b` (kind 1, not an abort token), the run does not run
+out of fuel — and the error is the boundary error whose extent `[0,1)` ends at `q.stop` = byte 1. -/
+example : ScanOK EW mW 3 ∧ PassOK EW ∧ Closed EW PW mW ∧
+    (∀ p, PW p → (splitAtByte RW.text p.byte).isSome = true) ∧ AbsC EW mW 3 PW lxW sW ∧
+    pegWithCap (.one 0) = true ∧
+    peg RW.text 2 (.one 0) sW = .ok (.tok ⟨0, 0⟩) ⟨rawW.tail, .eot, some 1⟩ ∧
+    sW.view = [] ++ (⟨⟨0, 0⟩, ⟨0, 0, 0⟩, ⟨1, 0, 1⟩⟩ : RawTok Tok) :: (⟨rawW.tail, .eot, some 1⟩ : PState).view ∧
+    (⟨rawW.tail, .eot, some 1⟩ : PState).view = (⟨⟨1, 0⟩, ⟨2, 0, 2⟩, ⟨3, 0, 3⟩⟩ : RawTok Tok) :: [] ∧
+    [2].contains (⟨⟨1, 0⟩, ⟨2, 0, 2⟩, ⟨3, 0, 3⟩⟩ : RawTok Tok).tok.kind = false ∧
+    (run RW 2 (.upTo (.one 0) [2]) lxW ctxW World.init).1 ≠ .fuel ∧
+    (run RW 2 (.upTo (.one 0) [2]) lxW ctxW World.init).1 =
+      .err (mkErr (.boundary ⟨⟨0, 0, 0⟩, ⟨1, 0, 1⟩⟩ ⟨3, 0, 3⟩)) :=
+  ⟨scanW_ok, passW, closedW, boundaryW, absCW, rfl, rfl, by decide, by decide, by decide,
+    upTo_one_not_fuel, upTo_one_boundary⟩
+
+/-- and what the theorem then says about that error: its extent ends at byte 1, line 0, column 1 -/
+example : ∃ es endp, (run RW 2 (.upTo (.one 0) [2]) lxW ctxW World.init).1 = .err (mkErr (.boundary es endp)) ∧
+    es.e = ⟨1, 0, 1⟩ ∧ es.s.byte ≤ es.e.byte :=
+  C13_boundary_extent RW mW 3 PW scanW_ok passW closedW boundaryW 1 2 (Nat.le_refl _) (.one 0) [2] lxW sW
+    ⟨rawW.tail, .eot, some 1⟩ ctxW World.init (.tok ⟨0, 0⟩) rfl absCW rfl
+    [] [] ⟨⟨0, 0⟩, ⟨0, 0, 0⟩, ⟨1, 0, 1⟩⟩ ⟨⟨1, 0⟩, ⟨2, 0, 2⟩, ⟨3, 0, 3⟩⟩ (by decide) (by decide) (by decide)
+    upTo_one_not_fuel
 
 end Tephra.Props
